@@ -39,8 +39,25 @@ structure PagingForm where
   fieldsz : List Nat                -- nfields = fieldsz.length (≤ 8)
   deriving DecidableEq, Repr, Inhabited
 
+/-- What the `first_step` callback of an `ADDRXLAT_CUSTOM` method does with one
+class of input addresses (the callbacks themselves are user code; the model covers
+the family that decides by the address alone):
+* `finish as off` — the translation is complete after the first step
+  (`step->remain = 0`, `step->base = ⟨addr + off, as⟩`); `addrxlat_walk` then
+  returns at once and does **not** overwrite `base.as` with `target_as`;
+* `step as off` — one level is left (`remain = 1`, `elemsz = 1`, `idx[0] = addr`,
+  `base = ⟨off, as⟩`), as the built-in linear method does; the walk finishes it
+  and stores `target_as`;
+* `fail st` — the callback returns the error status `st`. -/
+inductive CustomArm
+  | finish (as off : Nat)
+  | step (as off : Nat)
+  | fail (st : XStatus)
+  deriving DecidableEq, Repr, Inhabited
+
 inductive Meth
   | nometh
+  | custom (targetAs : Nat) (mask : Nat) (hit miss : CustomArm)
   | linear (targetAs : Nat) (off : Nat)
   | pgt (targetAs : Nat) (root : FullAddr) (pteMask : Nat) (pf : PagingForm)
   | lookup (targetAs : Nat) (endoff : Nat) (tbl : List (Nat × Nat))
@@ -50,6 +67,7 @@ inductive Meth
 def Meth.targetAs : Meth → Nat
   | .nometh => NOADDR
   | .linear t _ => t | .pgt t _ _ _ => t | .lookup t _ _ => t | .memarr t _ _ _ _ => t
+  | .custom t _ _ _ => t
 
 /-- The public `addrxlat_step_t` state. -/
 structure Step where
@@ -117,10 +135,20 @@ def checkSaddr (pf : PagingForm) (s : Step) : Except XStatus Step :=
   let signext := if top % 2 = 1 then (W - 1) / 2^(vaddrBits pf) else 0
   if idxAt s lvl ≠ signext then .error .invalid else .ok s
 
+/-- the `first_step` callback of a custom method (see `CustomArm`) -/
+def firstStepCustom (mask : Nat) (hit miss : CustomArm) (addr : Nat) : Except XStatus Step :=
+  match (if addr &&& mask ≠ 0 then hit else miss) with
+  | .finish as off =>
+    .ok { base := ⟨(addr + off) % W, as⟩, remain := 0, elemsz := 0, idx := List.replicate 9 0, raw := 0 }
+  | .step as off =>
+    .ok { base := ⟨off, as⟩, remain := 1, elemsz := 1, idx := addr :: List.replicate 8 0, raw := 0 }
+  | .fail st => .error (if st = .ok then .nometh else st)   -- a callback cannot fail "with OK"
+
 /-- `first_step` -/
 def firstStep (m : Meth) (addr : Nat) : Except XStatus Step :=
   match m with
   | .nometh => .error .nometh
+  | .custom _ mask hit miss => firstStepCustom mask hit miss addr
   | .linear t off =>
     .ok { base := ⟨off, t⟩, remain := 1, elemsz := 1, idx := addr :: List.replicate 8 0, raw := 0 }
   | .pgt _ root _ pf =>
@@ -238,6 +266,7 @@ def nextStep (extra : Extra) (mem : Mem) (m : Meth) (s : Step) : Except XStatus 
   match m with
   | .nometh => .error .nometh
   | .linear _ _ | .lookup _ _ _ => .ok s
+  | .custom _ _ _ _ => .ok s                       -- the harness's `next_step` callback does nothing
   | .pgt t _ pteMask pf => nextStepPgt extra mem t pteMask pf s
   | .memarr t _ shift _ valsz => nextMemarr mem t shift valsz s
 
